@@ -1,6 +1,7 @@
 package txmgr
 
 import (
+	"bytes"
 	"encoding/binary"
 	"errors"
 	"fmt"
@@ -96,6 +97,27 @@ func deleteRawUnminedInput(ns mwdb.Bucket, k []byte) error {
 		return fmt.Errorf("failed to delete unmined input: %v", err)
 	}
 	return nil
+}
+
+// deleteRawUnminedInputSpender removes one spender from the list of unmined
+// transactions that spend the serialized outpoint; the entry goes with its
+// last spender.
+func deleteRawUnminedInputSpender(ns mwdb.Bucket, k, spender []byte) error {
+	spendTxHashes, err := ns.Get(k)
+	if err != nil {
+		return err
+	}
+	var rest []byte
+	for len(spendTxHashes) >= 32 {
+		if !bytes.Equal(spendTxHashes[:32], spender) {
+			rest = append(rest, spendTxHashes[:32]...)
+		}
+		spendTxHashes = spendTxHashes[32:]
+	}
+	if len(rest) == 0 {
+		return deleteRawUnminedInput(ns, k)
+	}
+	return ns.Put(k, rest)
 }
 
 // fetchUnminedInputSpendTxHashes fetches the list of unmined transactions that
